@@ -319,6 +319,12 @@ type storeCase struct {
 	idx                int
 	staleHit           bool
 	lost               bool
+	// foreign: the replica has at some point held a record that is not the primary's (an accepted
+	// alteration). After a discard and a reopening the tx log reload may take that record back while
+	// the AHT keeps the leaf of whichever record was appended last for that id (ResetSize does not
+	// shrink the AHT files): the AHT and the chain then disagree. Not modelled: the case ends at the
+	// first reopening after such an acceptance.
+	foreign bool
 }
 
 func (sc *storeCase) find(text string) {
@@ -393,7 +399,7 @@ func family(h *history, alt []byte, skip bool) string {
 		if skip {
 			return "entries (skipIntegrityCheck)"
 		}
-		return "nothing that enters Alh"
+		return "entries only (header unchanged) although the integrity check is on"
 	}
 	return strings.Join(fs, "+")
 }
@@ -431,6 +437,7 @@ func (sc *storeCase) deliver(b []byte, skip bool, genuineID uint64, what string)
 		}
 		if !known || hdr.Alh() != palh {
 			sc.diverged = true
+			sc.foreign = true
 			if genuineID > 0 {
 				if !sc.divergedBefore(id) {
 					if hdr.BlTxID == 0 && hdr.BlRoot != [sha256.Size]byte{} {
@@ -483,7 +490,7 @@ func (sc *storeCase) restart() error {
 	after := obsOf(sc.replica)
 	sc.add(fmt.Sprintf("SRestart %s", after.term(sc.in)), map[string]any{"op": "restart", "after": after.js()})
 	sc.stats["restart"]++
-	if sc.c.embedded && after.pid < before.pid && after.cid == 0 {
+	if sc.c.embedded && after.cid == 0 && sc.stats["deliver/next/accepted"]+sc.stats["deliver/altered/accepted"]+sc.stats["deliver/forge/accepted"]+sc.stats["batch"] > 0 {
 		// the reload loop mis-read the embedded-values prefix; what it left in the tx holder (it
 		// matters for a later tx 1, stale-BlRoot finding) is not modelled: the case ends here
 		sc.lost = true
@@ -503,6 +510,9 @@ func (sc *storeCase) restart() error {
 	sc.discardedSinceOpen = false
 	sc.restarts++
 	sc.recheckDiverged() // reopening takes discarded records back
+	if sc.foreign {
+		sc.lost = true
+	}
 	return nil
 }
 
@@ -926,7 +936,13 @@ func (sc *storeCase) forge(skip bool) error {
 				}
 			}
 		}
-		if sc.deliver(h.exports[id-1], skip, id, "next") != 0 {
+		cls := sc.deliver(h.exports[id-1], skip, id, "next")
+		if o := obsOf(sc.replica); cls != 0 && sc.c.ext && o.pid > o.cid {
+			// the precommit buffer (MaxActiveTransactions) may be full: commit the backlog, retry
+			sc.allow(o.pid)
+			cls = sc.deliver(h.exports[id-1], skip, id, "next")
+		}
+		if cls != 0 {
 			if sc.c.defaultLimits() {
 				sc.find(fmt.Sprintf("replica holding the primary's transactions 1..%d rejected the unaltered export of tx %d", id-1, id))
 			}
